@@ -203,6 +203,20 @@ def streamHistory (fields : List String) : String :=
     " | ".intercalate ((histRun evalFuel docs [] ops).map histOutStr)
   | _ => "BADCASE"
 
+/-- json: `<text hex>` → `ok <typed value>\ttext=<hex of compact print>\treparse=<same|DIFF>` | `E` -/
+def streamJson (fields : List String) : String :=
+  match fields with
+  | [h] =>
+    match JsonText.parse (Enc.unhexStr h).toList with
+    | none => "E"
+    | some v =>
+      let printed := JsonPrint.compact v
+      let re := match JsonText.parse printed.toList with
+        | some v' => if Enc.valStr v' == Enc.valStr v then "same" else "DIFF:" ++ Enc.valStr v'
+        | none => "ERR"
+      s!"ok {Enc.valStr v}\ttext={Enc.hexStr printed}\treparse={re}"
+  | _ => "BADCASE"
+
 partial def loop (h : IO.FS.Stream) (out : IO.FS.Stream) (f : List String → String) : IO Unit := do
   let line ← h.getLine
   if line.isEmpty then return ()
@@ -219,5 +233,6 @@ def main (args : List String) : IO UInt32 := do
   | ["eval"] => loop stdin stdout streamEval; return 0
   | ["errfmt"] => loop stdin stdout streamErrfmt; return 0
   | ["registry"] => loop stdin stdout streamRegistry; return 0
+  | ["json"] => loop stdin stdout streamJson; return 0
   | ["history"] => loop stdin stdout streamHistory; return 0
   | _ => IO.eprintln "usage: jmdriver <stream>"; return 2
